@@ -88,6 +88,14 @@ def addTag (t : Tags) (tag : Tag) : Outcome Tags := do
 def quickAddTag (t : Tags) (num : Nat) (data : Bytes) : Outcome Tags :=
   addTag t (createTag num data)
 
+/-- `libwifi_dump_tag(tag, buf, buf.length)`: (return value, buffer afterwards) -/
+def dumpTag (tag : Tag) (buf : Bytes) : Outcome (Int × Bytes) :=
+  if 2 + tag.len.toNat > buf.length then .ok (-EINVAL, buf)
+  else do
+    let body ← rdSlice "tag body" tag.body 0 tag.len.toNat
+    let e := tag.num :: tag.len :: body
+    .ok (e.length, e ++ buf.drop e.length)
+
 /-- first element the caller's loop visits whose number is `num` -/
 def findTag (t : Tags) (num : Nat) : Outcome (Option Spec.ElemAt) := do
   let es ← reported (t.params.take t.length)
